@@ -1,8 +1,8 @@
 (* Extraction of the C06 models for the correspondence check (the cipher is the Gallina AES of C07Aes.v).
    ExtrOcamlBasic only. *)
 From V.lib Require Import Base.
-From V.c07 Require Import C07Model C07Aes.
-From V.c06 Require Import C06Model C06InitModel C06SencModel C06TrexModel C06TimingModel.
+From V.c07 Require Import C07Model C07Spec C07Aes.
+From V.c06 Require Import C06Model C06InitModel C06SencModel C06TrexModel C06TimingModel C06SinfModel.
 Require Import ExtrOcamlBasic.
 Separate Extraction
   ssp scheme tkind tbox mchild frag
@@ -13,4 +13,5 @@ Separate Extraction
   senc saiz enc_sample senc_of saiz_of senc_empty saiz_empty increment_iv pad_iv saio_offset
   sizing sample_sizes split_samples senc_calc_size senc_encode saiz_encode saio_encode senc_parse traf_senc senc_of_r
   tsample trun_t tfhd_t trex_t add_sample_defaults fragment_meta trun_encode_body trun_decode_body set_data_offset
+  protect_entry protect_entry_bytes unprotect_entry_bytes sinf_decode sinf_d children_of box_type box_payload be be_bytes
   Z.of_N.  (* Z.of_N only so that BinNums.coq_Z exists for ocaml/vx.ml *)
